@@ -284,6 +284,13 @@ fn main() {
     }
     if let Some(f) = &run.failure {
         let path = write_replay(&id, seed, tier.name(), f);
+        if f.failure.sig.starts_with("harness-") {
+            // the harness contradicted itself (generator or reference problem): not a verdict
+            out!("signature: {}", f.failure.sig);
+            out!("{}", serde_json::to_string_pretty(&f.failure.detail).unwrap());
+            out!("INCONCLUSIVE: harness self-check failed, case saved as {}", path);
+            std::process::exit(2);
+        }
         out!("signature: {}", f.failure.sig);
         out!("{}", serde_json::to_string_pretty(&f.failure.detail).unwrap());
         out!("VIOLATION property={} replay={}", id, path);
